@@ -1187,6 +1187,7 @@ def render_marker(kind, text):
 
 
 def render_marker0(kind, text):
+    text = text.replace('__null', 'NULL')   # NULL as expanded by the C++ preprocessor
     if kind == 'ASSERT':
         m = re.match(r'\s*("(?:[^"\\]|\\.)*")\s*,(.*)$', text, re.S)
         if not m:
